@@ -416,7 +416,7 @@ func (e *Exec) sliceOp(in *ssa.Slice, fr *Frame) Value {
 			cp = max
 		}
 		e.check(tt.And(tt.Cmp(OUle, lo, hi), tt.Cmp(OUle, hi, cp)), in, "slice bounds out of range")
-		return SliceV{arr: x.arr, off: tt.Bin(OAdd, x.off, lo), ln: tt.Bin(OSub, hi, lo), cp: tt.Bin(OSub, cp, lo)}
+		return SliceV{arr: x.arr, off: e.subst(tt.Bin(OAdd, x.off, lo)), ln: e.subst(tt.Bin(OSub, hi, lo)), cp: e.subst(tt.Bin(OSub, cp, lo))}
 	case Ptr: // *array
 		if x.obj == nil {
 			panic(e.panicEnd(in, "slice of nil array pointer"))
